@@ -369,14 +369,15 @@ def observe(run, shoot, accbin, modname, pkgs):
                 o["status"] = 5
                 continue
             if errs:
-                mine = ".shootnew.%s.go" % sd["name"].lower()
-                own = [e for e in errs if mine in e]
-                o["status"] = 3 if own else 5
-                o["errors"] = own or errs[:3]
+                # every compile error goes to the struct whose generated declarations contain its position; an error that
+                # belongs to no struct counts against all of them (3), errors of sibling types only give 5
+                if "_attr" not in pkg:
+                    pkg["_attr"] = ctorlib.attribute_errors(mod / pkg["name"], [x["name"] for x in pkg["structs"]], errs)
+                o["status"], o["errors"] = ctorlib.status_from_errors(sd["name"], *pkg["_attr"])
                 continue
             st = info["structs"].get(sd["name"])
             if st is None or ("New" + sd["name"]) not in info["funcs"]:
-                o["status"] = 5
+                o["status"] = 6          # the package type-checks but T / NewT is missing: fails Pb inside the guard
                 continue
             own = set(m[0] for m in st["own"])
             o["has_json"] = "MarshalJSON" in own and "UnmarshalJSON" in own
